@@ -7,7 +7,7 @@ RULE = ("designed layouts: an enzyme (BsaI / BbsI / BtgZI, each through CutWithE
         "over neighbouring sites, homopolymer / two-letter / random ACGT filler, filler with N / IUPAC codes / U, digits, blanks, accidental sites repaired away), mixed / all-lower / all-upper letter case. "
         "Circular parts: one case = ALL rotations of the plasmid (n <= 300) or the rotations that put the origin at / next to / inside "
         "every site and every cut plus random ones (n > 300); every rotated sequence is produced by the Lean function Spec.rotl. "
-        "Linear parts; case-recasing pairs; `hist` cases (one stored string through circular/linear, directional/non-directional calls in one process; judged and corresponded per step - only the steps whose call lies inside the quantifier count). Out-of-domain probes (non-directional, palindromic site, self-overlapping sites and sites overlapping their reverse complement, cuts too close, "
+        "Linear parts; case-recasing pairs; the same flanked cassette cloned 2 or 3 times with different spacers (equal fragments: the multiset comparison counts multiplicities, List.isPerm); `hist` cases (one stored string through circular/linear, directional/non-directional calls in one process; judged and corresponded per step - only the steps whose call lies inside the quantifier count). Out-of-domain probes (non-directional, palindromic site, self-overlapping sites and sites overlapping their reverse complement, cuts too close, "
         "tiny and empty sequences, unknown enzyme name) are corresponded but not judged. "
         "non-trivial = at least one site occurrence; distinct by case text")
 EXHAUSTIVE = {"quick": False, "thorough": True}
@@ -222,6 +222,40 @@ def blunt_family(r, circular):
     return ["lin", "", site, str(skip), "0", "true", s]
 
 
+def cassette_family(r, circular):
+    """the SAME flanked cassette (forward site, skip, overhang, interior, overhang, skip, backward site) cloned
+    2 or 3 times with different spacers: equal fragments must be returned with their multiplicity"""
+    name, site, skip, oh = pick_enzyme(r)
+    rs = rc(site)
+    for _ in range(40):
+        copies = r.choice([2, 2, 3])
+        inner = randword(r, ACGT, skip) + randword(r, ACGT, oh) + randword(r, ACGT, r.randint(0, 25)) \
+            + randword(r, ACGT, oh) + randword(r, ACGT, skip)
+        if oh == 0 and len(inner) == 2 * skip:
+            inner = inner[:skip] + r.choice(ACGT) + inner[skip:]      # keep the two cuts apart
+        cas = site + inner + rs
+        alpha = r.choice([ACGT, ACGT, "AT", "N", "ACGTN"])
+        parts = []
+        for i in range(copies):
+            parts.append(randword(r, alpha, r.randint(1 if circular else 0, 30)))
+            parts.append(cas)
+        parts.append(randword(r, alpha, r.randint(0, 12)))
+        if r.random() < 0.3:
+            # a different cassette in between: a second class of fragments
+            parts.insert(2, site + randword(r, ACGT, 2 * skip + 2 * oh + r.randint(1, 9)) + rs + randword(r, alpha, r.randint(1, 9)))
+        s = "".join(parts)
+        while len(s) < 20:
+            s += r.choice(alpha)
+        nsites = len(occurrences(s, site, circular)) + len(occurrences(s, rs, circular))
+        want = 2 * copies + (2 if len(parts) > 2 * copies + 1 else 0)
+        if nsites == want and wf(s, site, skip, oh, circular):
+            s = anycase(r, s)
+            if circular:
+                return ["circ"] + enz_fields(name, site, skip, oh) + ["true", s, "all" if len(s) <= 300 else special_rotations(r, s, site, skip, oh, 6)]
+            return ["lin"] + enz_fields(name, site, skip, oh) + ["true", s]
+    return None
+
+
 def anycase(r, s):
     """letter case of the stored string: mixed, all lower, all upper"""
     t = r.random()
@@ -365,6 +399,13 @@ def cases(seed, tier):
         c = circ_case(r, 300, True, nmin=200)
         if c:
             yield c
+
+    # --- the same flanked cassette cloned 2 or 3 times: equal fragments, multiplicity matters
+    for i in range(25 if quick else 400):
+        for circular in (True, True, False):
+            c = cassette_family(r, circular)
+            if c:
+                yield c
 
     # --- blunt cutters: coincident and near-coincident forward/reverse cuts, every rotation
     for i in range(20 if quick else 300):
